@@ -5,8 +5,10 @@ from __future__ import annotations
 from ..sqlsmt.symdb import Col, TableSpec
 
 
-def rel_specs(parents: int = 2, children: int = 3, tags: int = 2, links: int = 3):
+def rel_specs(parents: int = 2, children: int = 3, tags: int = 2, links: int = 3, notes: int = 2):
     return [
+        TableSpec("vt_note", [Col("id", "int", nullable=False, pk=True), Col("text", "str"),
+                              Col("parent_id", "int", fk="vt_parent"), Col("child_id", "int", fk="vt_child")], slots=notes),
         TableSpec("vt_parent", [Col("id", "int", nullable=False, pk=True), Col("n", "int"), Col("name", "str"),
                                 Col("boss_id", "int", fk="vt_parent")], slots=parents),
         TableSpec("vt_child", [Col("id", "int", nullable=False, pk=True), Col("parent_id", "int", fk="vt_parent"),
@@ -24,14 +26,14 @@ def rel_specs2(users: int = 2, teams: int = 2, projects: int = 2, tickets: int =
         TableSpec("vt2_user", [Col("id", "int", nullable=False, pk=True), Col("name", "str")], slots=users),
         TableSpec("vt2_team", [Col("id", "int", nullable=False, pk=True), Col("name", "str")], slots=teams),
         TableSpec("vt2_project", [Col("id", "int", nullable=False, pk=True), Col("name", "str"),
-                                  Col("owner_id", "int", fk="vt2_team")], slots=projects),
+                                  Col("owner_id", "int", nullable=False, fk="vt2_team")], slots=projects),
         TableSpec("vt2_ticket", [Col("id", "int", nullable=False, pk=True), Col("n", "int"), Col("title", "str"),
                                  Col("owner_id", "int", fk="vt2_user"), Col("project_id", "int", fk="vt2_project")],
                   slots=tickets),
     ]
 
 
-ROOT_TABLE = {"Parent": "vt_parent", "Child": "vt_child", "Tag": "vt_tag", "Item": "vt_item",
+ROOT_TABLE = {"Parent": "vt_parent", "Child": "vt_child", "Tag": "vt_tag", "Item": "vt_item", "Note": "vt_note",
               "Ticket": "vt2_ticket", "Project": "vt2_project"}
 SCHEMA2_MODELS = ("Ticket", "Project", "User", "Team")
 
@@ -54,6 +56,11 @@ REL = {
     ("vt_child", "parent"): ("one", "vt_parent", "parent_id"),
     ("vt_child", "owner"): ("one", "vt_parent", "owner_id"),
     ("vt_tag", "parents"): ("m2m", "vt_parent", "vt_parent_tags", "tag_id", "parent_id"),
+    # `notes`: a collection of the same name on two models
+    ("vt_parent", "notes"): ("many", "vt_note", "parent_id"),
+    ("vt_child", "notes"): ("many", "vt_note", "child_id"),
+    ("vt_note", "parent"): ("one", "vt_parent", "parent_id"),
+    ("vt_note", "child"): ("one", "vt_child", "child_id"),
     # second schema: `owner` names two different relationships
     ("vt2_ticket", "owner"): ("one", "vt2_user", "owner_id"),
     ("vt2_ticket", "project"): ("one", "vt2_project", "project_id"),
